@@ -93,15 +93,18 @@ def path_push(engine, ctx, params):
     t = build_term(it, spec)
     before = canon_term(t)
     comps = []
-    for i in range(params['n']):
+    kinds = params.get('kinds') or ['W'] * params['n']
+    for i, kd in enumerate(kinds):
+        if kd == 'P': comps.append(('Placeholder',)); continue
+        if kd == 'I': comps.append(('Interval', 3)); continue
         c = z3.BitVec('p%d' % i, 32); ctx.assume(models_str.valid_char(c)); comps.append(('Word', [c]))
     cvals = RVec([build_term(it, c) for c in comps])
     cell = [t]
     r = it.call_named('impls::<impl %s>::push_components::<%s>' % (TERM_TY, VEC_TERM), [Ref(cell, 0), cvals], ['&mut ' + TERM_TY, VEC_TERM], None)
     m = ctx.model()
-    cn = [chr(m.eval(c[1][0], model_completion=True).as_long()) for c in comps]
+    cspecs = [c if c[0] != 'Word' else ('Word', chr(m.eval(c[1][0], model_completion=True).as_long())) for c in comps]
+    cn = [c[1] if c[0] == 'Word' else c[0] for c in cspecs]
     after = canon_term(cell[0], m); ok = r.variant == 'Ok'
-    cspecs = [('Word', n) for n in cn]
     bad = None
     if kind in VECLIKE:
         exp = list(spec); exp[-1] = list(spec[-1]) + cspecs
@@ -145,6 +148,8 @@ def main(tier, seed):
     for s in ('18446744073709551615', '18446744073709551616', '+0', '+', '0007', '-1', '+18446744073709551615', '99999999999999999999'):
         plist.append(dict(shape=('Interval', ('Interval', 5)), len=len(s), fixed=[ord(c) for c in s]))
     R.run_query(Query('rename', 'c17', 'path_rename', plist, '%d shapes (all 30 constructors) x names of 0..%d arbitrary chars + 8 boundary numerals' % (len(shapes), 3 if quick else 4)), confirm, key_of)
+    import itertools
     plist = [dict(shape=sh, n=n) for sh in shapes for n in range(0, 3)]
-    R.run_query(Query('push', 'c17', 'path_push', plist, '%d shapes x 0..2 pushed atoms with arbitrary names' % len(shapes)), confirm, key_of)
+    plist += [dict(shape=sh, n=len(k), kinds=list(k)) for sh in shapes for n_ in (1, 2, 3) for k in itertools.product('WPI', repeat=n_) if ('P' in k or 'I' in k) and (n_ < 3 or k.count('W') <= 1)]
+    R.run_query(Query('push', 'c17', 'path_push', plist, '%d shapes x pushed lists of 0..3 components drawn from {word with arbitrary name, placeholder, interval}' % len(shapes)), confirm, key_of)
     return R.finish(rule='one state = one path of a mutator on one shape with symbolic arguments', trusted=['rustc MIR', 'mirsym + std models (validated per path)', 'z3'])
